@@ -18,6 +18,11 @@ type Input struct {
 	Faults  []Fault     `json:"faults,omitempty"`
 	SFaults []StoreFail `json:"storeFaults,omitempty"`
 	Choices []int       `json:"choices,omitempty"`
+	// Tail decides the scheduling decisions after the explicit Choices are used up: with TailPct
+	// per cent probability per step another task than the running one is taken, the decision being
+	// a pure function of (TailSeed, step index). Zero = the running task keeps running.
+	TailSeed uint64 `json:"tailSeed,omitempty"`
+	TailPct  int    `json:"tailPct,omitempty"`
 }
 
 type Config struct {
